@@ -964,6 +964,38 @@ func genC10(r *rand.Rand, n int, exhaustive bool, out func(J), next func() int) 
 		}
 		out(tag(run(Spec{Graphs: roundRobin(ts, k, i%k), Query: q.text()}, false), "optional-windows", next()))
 	}
+	// the same OPTIONAL query before and after matching triples are added through the storage API (no BQL INSERT in between)
+	for i := 0; i < n/16; i++ {
+		ts := cycleData(r)
+		h := len(ts) / 2
+		oq := [][]string{
+			{`?a "p"@[] ?b`, `OPT ?b "q"@[] ?c`},
+			{`?a ?p ?b`, `OPT ?b "q"@[?t] ?c`},
+			{`?a "q"@[] ?b`, `OPT ?a "p"@[] ?c`, `OPT ?c "p"@[] ?d`},
+		}[i%3]
+		q := query{from: 1}
+		for _, c := range oq {
+			q.clauses = append(q.clauses, strings.TrimPrefix(c, "OPT "))
+			q.optional = append(q.optional, strings.HasPrefix(c, "OPT "))
+		}
+		pre := []string{q.text(), "@add ?g0 " + strings.Join(ts[h:], "|")}
+		if i%2 == 1 {
+			pre = append(pre, q.text(), "@add ?g0 "+strings.Join(ts[:2], "|"))
+		}
+		out(tag(run(Spec{Graphs: [][]string{ts[:h]}, Query: q.text(), Pre: pre}, false), "sequence-optional", next()))
+	}
+	// an OPTIONAL clause all of whose bindings are already bound and which matches more than once for a row (anchors that
+	// differ under an interval, the triple in two FROM graphs): the row appears once per match
+	for i := 0; i < n/16; i++ {
+		base := []string{"/u<a>\t\"p\"@[]\t/u<b>", "/u<a>\t\"q\"@[2016-01-01T00:00:00Z]\t/u<b>", "/u<a>\t\"q\"@[2016-06-01T00:00:00-08:00]\t/u<b>",
+			"/u<c>\t\"p\"@[]\t/u<d>", "/u<c>\t\"q\"@[2016-06-01T00:00:00-08:00]\t/u<d>", "/u<b>\t\"p\"@[]\t/u<a>"}
+		g0 := append(append([]string{}, base...), genTriples(r, 3)...)
+		g1 := append(append([]string{}, base...), genTriples(r, 3)...)
+		opt := []string{`?s "q"@[,] ?o`, `?s "q"@[2015-01-01T00:00:00Z,2018-01-01T00:00:00Z] ?o`, `?s "p"@[] ?o`, `?s ?p ?o`}[i%4]
+		first := []string{`?s "p"@[] ?o`, `?s ?p ?o`}[(i/4)%2]
+		q := query{clauses: []string{first, opt}, optional: []bool{false, true}, from: 1 + i%2}
+		out(tag(run(Spec{Graphs: [][]string{g0, g1}[:q.from], Query: q.text()}, false), "optional-allbound", next()))
+	}
 	filterPairs(r, n/12, out, next)
 	// one sized case: 260 left rows, the OPTIONAL clause shares an anchor binding; the same instant in two zones on the two sides
 	{
